@@ -234,3 +234,90 @@ def rename_roles_node(fn_node, finders: dict):
         if isinstance(n, ast.Name) and n.id in ren:
             n.id = ren[n.id]
     return node
+
+
+# ---------------------------------------------------------------------------
+# match statement -> if / elif chain (the opposite of normalize.matchify), for rules written against if-chains
+
+
+def ifchain(f, subjects=None):
+    """Copy of Func `f` in which `match S:` statements made only of value / class / or / wildcard patterns (no
+    captures, no guards) read as `if S == v: ... elif isinstance(S, C): ... else: ...`.  `subjects`: restrict to
+    these subject texts (None = every convertible match)."""
+    node = copy.deepcopy(f.node)
+    changed = False
+
+    def test_of(subj, pat):
+        if isinstance(pat, ast.MatchValue):
+            return ast.Compare(copy.deepcopy(subj), [ast.Eq()], [pat.value])
+        if isinstance(pat, ast.MatchSingleton):
+            return ast.Compare(copy.deepcopy(subj), [ast.Is()], [ast.Constant(pat.value)])
+        if isinstance(pat, ast.MatchClass) and not pat.patterns and not pat.kwd_patterns:
+            return ast.Call(ast.Name("isinstance", ast.Load()), [copy.deepcopy(subj), pat.cls], [])
+        if isinstance(pat, ast.MatchOr):
+            subs = [test_of(subj, p) for p in pat.patterns]
+            if any(s is None for s in subs):
+                return None
+            if all(isinstance(p, ast.MatchValue) for p in pat.patterns):
+                return ast.Compare(copy.deepcopy(subj), [ast.In()], [ast.Tuple([p.value for p in pat.patterns], ast.Load())])
+            if all(isinstance(p, ast.MatchClass) for p in pat.patterns):
+                return ast.Call(ast.Name("isinstance", ast.Load()), [copy.deepcopy(subj), ast.Tuple([p.cls for p in pat.patterns], ast.Load())], [])
+            return ast.BoolOp(ast.Or(), subs)
+        return None
+
+    def convert(m: ast.Match):
+        if subjects is not None and ast.unparse(m.subject) not in subjects:
+            return None
+        arms, default = [], None
+        for i, c in enumerate(m.cases):
+            if c.guard is not None:
+                return None
+            if isinstance(c.pattern, ast.MatchAs) and c.pattern.pattern is None and c.pattern.name is None:
+                if i != len(m.cases) - 1:
+                    return None
+                default = c.body
+                continue
+            t = test_of(m.subject, c.pattern)
+            if t is None:
+                return None
+            arms.append((t, c.body))
+        if not arms:
+            return None
+        chain = list(default) if default else []
+        for t, body in reversed(arms):
+            new = ast.If(t, list(body), chain)
+            ast.copy_location(new, body[0] if body else m)
+            for n in ast.walk(t):
+                if not hasattr(n, "lineno"):
+                    ast.copy_location(n, m)
+            chain = [new]
+        ast.copy_location(chain[0], m)
+        return chain[0]
+
+    def rewrite(blk):
+        nonlocal changed
+        for i, s in enumerate(blk):
+            if isinstance(s, ast.Match):
+                r = convert(s)
+                if r is not None:
+                    blk[i] = r
+                    s = r
+                    changed = True
+            for fld in ("body", "orelse", "finalbody"):
+                b = getattr(s, fld, None)
+                if isinstance(b, list) and b and isinstance(b[0], ast.stmt) and not isinstance(s, (ast.FunctionDef, ast.AsyncFunctionDef, ast.ClassDef)):
+                    rewrite(b)
+            if isinstance(s, ast.Try):
+                for h in s.handlers:
+                    rewrite(h.body)
+            if isinstance(s, ast.Match):
+                for c in s.cases:
+                    rewrite(c.body)
+
+    rewrite(node.body)
+    if not changed:
+        return f
+    ast.fix_missing_locations(node)
+    g = dataclasses.replace(f)
+    g.node = node
+    return g
